@@ -86,16 +86,85 @@ def parseAOp (ih : Bytes) (now : Int) (s : String) : Option RedisConc.AOp :=
     | none => none
   | _ => none
 
+/-- a thread's program: announce-path operations, or one expiry pass (`gc:<cutoff>`), which the model does not
+schedule by itself: the trace says which of its command groups went through, and when -/
+inductive Prog where
+  | ops (l : List RedisConc.AOp)
+  | gc (cutoff : Int)
+
 /-- `-` = the empty program; operations separated by `;`, threads by `|` -/
-def parseProgs (ih : Bytes) (now : Int) (s : String) : Option (List (List RedisConc.AOp)) :=
-  (s.splitOn "|").mapM fun t => if t == "-" || t == "" then some [] else (t.splitOn ";").mapM (parseAOp ih now)
+def parseProgs (ih : Bytes) (now : Int) (s : String) : Option (List Prog) :=
+  (s.splitOn "|").mapM fun t =>
+    if t == "-" || t == "" then some (.ops [])
+    else if t.startsWith "gc:" then (t.drop 3).toString.toInt?.map .gc
+    else ((t.splitOn ";").mapM (parseAOp ih now)).map .ops
 
-def parseSched (s : String) : Option (List Nat) :=
-  if s == "-" || s == "" then some [] else (s.splitOn ",").mapM (·.toNat?)
+/-- `v4S:<hex>` -/
+def parseSwarmKey (s : String) : Option (Fam × Bool × Bytes) :=
+  match s.splitOn ":" with
+  | [h, x] =>
+    match h.toList, hexArg x with
+    | ['v', f, r], some ih => some (if f == '6' then .v6 else .v4, r == 'S', ih)
+    | _, _ => none
+  | _ => none
 
-/-- after the schedule every thread is run to completion, thread 0 first -/
-def drain (c : RedisConc.Config) (n fuel : Nat) : RedisConc.Config :=
-  (List.range n).foldl (fun c t => (List.range fuel).foldl (fun c _ => RedisConc.stepThread c t) c) c
+inductive TStep where
+  | next (t : Nat)                                  -- the next round trip of an announce-path thread
+  | delta (t : Nat)                                 -- a collector's DECRBY / DECR
+  | hash (t : Nat) (f : Fam) (r : Bool) (ih : Bytes)   -- a collector's removal group went through
+  | idx (t : Nat) (f : Fam) (r : Bool) (ih : Bytes)    -- a collector's unregistering group went through
+  | mid
+
+def parseTStep (s : String) : Option TStep :=
+  if s == "|" then some .mid else
+  match s.splitOn ":" with
+  | [t] => t.toNat?.map .next
+  | [t, "d"] => t.toNat?.map .delta
+  | [t, k, h, x] =>
+    match t.toNat?, parseSwarmKey (h ++ ":" ++ x) with
+    | some t, some (f, r, ih) => if k == "H" then some (.hash t f r ih) else if k == "I" then some (.idx t f r ih) else none
+    | _, _ => none
+  | _ => none
+
+def parseTrace (s : String) : Option (List TStep) :=
+  if s == "-" || s == "" then some [] else (s.splitOn ",").mapM parseTStep
+
+structure TraceSt where
+  c : RedisConc.Config
+  mid : Option RedisStore.RState := none
+  bad : Option String := none
+
+/-- a command group of a collector going through: it must not owe a counter round trip (the code issues the
+DECRBY before it looks at the next key); then it is the atomic step of the model at the current state -/
+def commitGroup (c : RedisConc.Config) (t : Nat) (o : RedisConc.AOp) : Except String RedisConc.Config :=
+  let th := c.thr t
+  if !th.pending.isEmpty then .error "collector commits a group while it owes a counter command"
+  else .ok (RedisConc.stepThread { c with thr := RedisConc.upd c.thr t ⟨[], o :: th.todo⟩ } t)
+
+def traceStep (progs : List Prog) (ts : TraceSt) (e : TStep) : TraceSt :=
+  if ts.bad.isSome then ts else
+  let cut (t : Nat) : Option Int := match progs[t]? with | some (.gc k) => some k | _ => none
+  match e with
+  | .mid => { ts with mid := some ts.c.s }
+  | .next t =>
+    match cut t with
+    | some _ => { ts with bad := some "plain step of a collector" }
+    | none => { ts with c := RedisConc.stepThread ts.c t }
+  | .delta t =>
+    if (ts.c.thr t).pending.isEmpty then { ts with bad := some "counter command nobody owes" }
+    else { ts with c := RedisConc.stepThread ts.c t }
+  | .hash t f r ih =>
+    match cut t with
+    | none => { ts with bad := some "group of a thread that is no collector" }
+    | some k => match commitGroup ts.c t (.gcHash f r ih k) with
+      | .ok c => { ts with c := c }
+      | .error m => { ts with bad := some m }
+  | .idx t f r ih =>
+    match cut t with
+    | none => { ts with bad := some "group of a thread that is no collector" }
+    | some _ => match commitGroup ts.c t (.gcIdx f r ih) with
+      | .ok c => { ts with c := c }
+      | .error m => { ts with bad := some m }
 
 def handle (st : DState) (l : Line) : Option (DState × Except String String) :=
   let ret (s : DState) (r : Except String String) := some (s, r)
@@ -179,16 +248,21 @@ def handle (st : DState) (l : Line) : Option (DState × Except String String) :=
     match l.bytes "ih" with
     | .error e => ret st (.error e)
     | .ok ih =>
-      match parseProgs ih st.clock (l.get "progs"), parseSched (l.get "sched") with
-      | some progs, some sched =>
-        let c0 := RedisConc.Init st.red (fun t => progs.getD t [])
-        let mid := RedisConc.run c0 sched
-        let inflight := ((List.range progs.length).filter fun t => !(mid.thr t).pending.isEmpty).length
-        let fuel := 4 * ((progs.map List.length).sum + 1)
-        let fin := drain mid progs.length fuel
-        let lg := ",".intercalate (fin.log.map fun (t, _, r) => s!"{t}:{if r then "ok" else "notexist"}")
-        ret { st with red := fin.s }
-          (.ok (s!"mid={dumpRedis mid.s} log=[{lg}]\t" ++ (if inflight > 0 then s!"inflight{inflight}" else "quiescent-mid")))
+      match parseProgs ih st.clock (l.get "progs"), parseTrace (l.get "trace") with
+      | some progs, some trace =>
+        let c0 := RedisConc.Init st.red (fun t => match progs[t]? with | some (.ops l) => l | _ => [])
+        let fin := trace.foldl (traceStep progs) { c := c0 }
+        match fin.bad with
+        | some m => ret st (.ok (s!"TRACE-NOT-A-MODEL-TRACE: {m}\tbadtrace"))
+        | none =>
+          let unfinished := ((List.range progs.length).filter fun t => !(fin.c.thr t).pending.isEmpty || !(fin.c.thr t).todo.isEmpty).length
+          let mid := fin.mid.getD fin.c.s
+          let isAnn (o : RedisConc.AOp) : Bool := match o with | .gcHash .. => false | .gcIdx .. => false | _ => true
+          let lg := ",".intercalate ((fin.c.log.filter fun e => isAnn e.2.1).map fun (t, _, r) => s!"{t}:{if r then "ok" else "notexist"}")
+          let groups := (fin.c.log.filter fun e => !isAnn e.2.1).length
+          ret { st with red := fin.c.s }
+            (.ok (s!"mid={dumpRedis mid} log=[{lg}]" ++ (if unfinished > 0 then s!" UNFINISHED={unfinished}" else "") ++ "\t" ++
+                  (if groups > 0 then s!"collector-groups{groups}" else "announce-only")))
       | _, _ => ret st (.error "bad args")
   | "st.redis_gc_double" =>
     -- two expiry passes of two instances overlapping on an emptied swarm: in any sequential order the first
